@@ -13,8 +13,61 @@ import MambaVerif.Model.Pipeline
 import MambaVerif.Model.Diag
 import MambaVerif.Model.ScopeWire
 import MambaVerif.Model.CallConf
+import MambaVerif.Model.Tail
 
 open MV
+
+
+namespace MV
+/-- reader of the wire form of statement trees: `E R X A`, `B(..;..)`, `I(t;e)`, `M(c;..)`, `C(b)`, `T(a;h;..)`, `H(b)` -/
+partial def readTS : List Char → Option (TS × List Char)
+  | 'E' :: r => some (.expr 1, r)
+  | 'R' :: r => some (.ret 1, r)
+  | 'X' :: r => some (.raise 1, r)
+  | 'A' :: r => some (.assign 2 1, r)
+  | 'B' :: '(' :: r => do let (ss, r') ← readTSList r; some (.block ss, r')
+  | 'I' :: '(' :: r => do
+      let (ss, r') ← readTSList r
+      match ss with
+      | [t, e] => some (.ifElse 1 t e, r')
+      | _ => none
+  | 'M' :: '(' :: r => do let (ss, r') ← readTSList r; some (.matchS 1 ss, r')
+  | 'C' :: '(' :: r => do
+      let (ss, r') ← readTSList r
+      match ss with
+      | [b] => some (.case 1 b, r')
+      | _ => none
+  | 'T' :: '(' :: r => do
+      let (ss, r') ← readTSList r
+      match ss with
+      | a :: hs => some (.tryExcept 1 a hs, r')
+      | _ => none
+  | 'H' :: '(' :: r => do
+      let (ss, r') ← readTSList r
+      match ss with
+      | [b] => some (.except 1 b, r')
+      | _ => none
+  | _ => none
+where
+  readTSList : List Char → Option (List TS × List Char)
+    | ')' :: r => some ([], r)
+    | cs => do
+      let (t, r) ← readTS cs
+      match r with
+      | ';' :: r' => do let (ts, r'') ← readTSList r'; some (t :: ts, r'')
+      | ')' :: r' => some ([t], r')
+      | _ => none
+
+def tailRequest (payload : String) : String :=
+  match payload.splitOn " " with
+  | [which, tree] =>
+    match readTS tree.toList with
+    | some (t, []) =>
+      let out := if which == "assign" then appendAssign 9 t else appendRet t
+      " ".intercalate ((leaves out).map TS.kindName)
+    | _ => "bad tree"
+  | _ => "bad payload"
+end MV
 
 def handle (mode : String) (payload : String) : String :=
   match mode with
@@ -57,6 +110,7 @@ def handle (mode : String) (payload : String) : String :=
     | none => "bad sexp"
   | "scope" => MV.SL.scopeRequest payload
   | "callconf" => callConfRequest payload
+  | "tail" => MV.tailRequest payload
   | "render" =>
     -- same payload as the harness: `<haspos> l1 c1 l2 c2 <hex msg> <hex path|-> <hex source|-> <n> (l1 c1 l2 c2 <hex msg>)*`
     let ws := (payload.splitOn " ")
